@@ -19,6 +19,7 @@ for el, (base, sub) in ELEMENTS.items():
 DEVIATIONS = [
     "subtype-element", "xsi-type-on-record", "str-typed", "nested-xmlns", "other-xsd-prefix", "multi-member",
     "comments", "prov-other", "default-ns", "bool-01", "time-Z", "int-as-long", "lang-with-type", "unsorted-extras",
+    "shadowed-root-prefix",
 ]
 
 
@@ -95,8 +96,19 @@ def value_xml(a, v, namer, sites, xsdp):
     raise ValueError(v)
 
 
+def _local_decls(namer, before):
+    """xmlns attributes for the prefixes a record used (declared on the record element itself)"""
+    decl = ""
+    for p, base in sorted(namer.used.items(), key=lambda kv: str(kv[0])):
+        if base in (PROV, XSD) or p is None:
+            continue
+        decl += " xmlns:%s=%s" % (p, quoteattr(base))
+    return decl
+
+
 def records_xml(records, namer, sites, xsdp, indent):
     out = []
+    shadow = "shadowed-root-prefix" in sites.dialect
     recs = list(records)
     merged = []
     if "multi-member" in sites.dialect:
@@ -148,6 +160,9 @@ def records_xml(records, namer, sites, xsdp, indent):
             head = [x for x in attrs if rank(x)[0] < 2]
             tail = [x for x in attrs if rank(x)[0] == 2]
             attrs = head + list(reversed(tail))
+        if shadow:
+            saved_used = dict(namer.used)
+            namer.used = {}
         idattr = "" if i is None else " prov:id=%s" % quoteattr(namer.qname(i))
         nested = ""
         children = []
@@ -160,6 +175,12 @@ def records_xml(records, namer, sites, xsdp, indent):
                 children.append("%s  <%s%s>%s</%s>" % (indent, tag, extra, escape(text), tag))
         if sites.on("comments"):
             children.insert(0, "%s  <!-- a comment -->" % indent)
+        if shadow:
+            if rec_attr:
+                pass  # the xsi:type value was spelt through namer.qname as well
+            nested = _local_decls(namer, None)
+            saved_used.update(namer.used)
+            namer.used = saved_used
         if children:
             out.append("%s<prov:%s%s%s%s>" % (indent, el, idattr, rec_attr, nested))
             out.extend(children)
@@ -202,10 +223,15 @@ def write(doc, prefixes, dialect=(), default=None):
         bparts.extend(inner)
         bparts.append("  </prov:bundleContent>")
     decl = ' xmlns:prov="%s" xmlns:%s="%s" xmlns:xsi="%s"' % (PROV, xsdp, XSD_XML, XSI)
+    shadow = sites.on("shadowed-root-prefix")
     for p, base in sorted(namer.used.items(), key=lambda kv: str(kv[0])):
         if base in (PROV, XSD):
             continue
-        decl += " xmlns%s=%s" % ("" if p is None else ":" + p, quoteattr(base))
+        if shadow and p is not None and not bundles:
+            # the document element binds the prefix to a decoy; the records re-bind it (nested declarations)
+            decl += " xmlns:%s=%s" % (p, quoteattr("http://decoy.example/" + p + "/"))
+        else:
+            decl += " xmlns%s=%s" % ("" if p is None else ":" + p, quoteattr(base))
     lines = ['<?xml version="1.0" encoding="UTF-8"?>', "<prov:document%s>" % decl]
     if sites.on("prov-other"):
         lines.append('  <prov:other><x xmlns="http://else/">ignored</x></prov:other>')
